@@ -125,6 +125,17 @@ def sizeEntries : Nat → List Bytes → List SizeEntry
   | _, [] => []
   | off, e :: es => (off, e.length) :: sizeEntries (off + e.length) es
 
+/-- `SizeEntry.size` is a `u16`: `bytes.len() as u16` in `append`, `(total_bytes_read - offset) as
+u16` in `rebuild_size_file` - an element of 65536 bytes or more gets the length modulo 2^16, and
+`rebuild_size_file` advances its offset by that wrapped value -/
+def u16 (n : Nat) : Nat := n % 65536
+
+/-- `rebuild_size_file` as the code computes it (wrapping sizes); `sizeEntries` for elements
+shorter than 65536 bytes -/
+def sizeEntriesW : Nat → List Bytes → List SizeEntry
+  | _, [] => []
+  | off, e :: es => (off, u16 e.length) :: sizeEntriesW (off + u16 e.length) es
+
 def sizeInElmts (v : VarFile) : Nat := v.sizeFile.sizeInElmts
 def sizeUnsyncInElmts (v : VarFile) : Nat := v.sizeFile.sizeUnsyncInElmts
 
@@ -139,7 +150,7 @@ def init (v : VarFile) : VarFile :=
 
 /-- `rebuild_size_file` followed by `size_file.replace` -/
 def rebuildSizeFile (v : VarFile) : VarFile :=
-  { v with sizeFile := { v.sizeFile with disk := sizeEntries 0 (parseAll el (v.disk.length + 1) v.disk) } }
+  { v with sizeFile := { v.sizeFile with disk := sizeEntriesW 0 (parseAll el (v.disk.length + 1) v.disk) } }
 
 /-- `open` on the durable parts (data file bytes, size file entries) -/
 def ofDisk (d : Bytes) (sizes : List SizeEntry) : VarFile :=
@@ -157,7 +168,7 @@ def append (v : VarFile) (bytes : Bytes) : Option VarFile :=
   match offset? with
   | none => none
   | some offset =>
-    some { v with sizeFile := v.sizeFile.append (offset, bytes.length), buffer := v.buffer ++ bytes }
+    some { v with sizeFile := v.sizeFile.append (offset, u16 bytes.length), buffer := v.buffer ++ bytes }
 
 /-- `offset_and_size` -/
 def offsetAndSize (v : VarFile) (pos : Nat) : Option SizeEntry := v.sizeFile.read pos
